@@ -194,24 +194,115 @@ theorem rep_interchangeable (h0 : conj 0 = 0) (rep : Rep R) :
 -- non-vacuity: a transposed view of a transposed view of a diagonal matrix offers `mv`
 example : offers .mv (.transposed (.transposed (.diag 3 (fun i => (i : Int))))) = true := by decide
 
-/-! ## matrix-matrix products -/
+/-- **Two representations holding the same entries are interchangeable**: if `r₁` and `r₂` have the same shape and the same
+entries (as full matrices, on that shape), every kernel both of them offer gives the same result, for all `alpha`, `x`, `y`
+and every index.  (Corollary of `rep_interchangeable`; e.g. a diagonal matrix vs. the full matrix with that diagonal, a
+transposed view of `A` vs. the transposed copy, a view of a view of `A` vs. `A`.) -/
+theorem rep_pair_interchangeable (h0 : conj 0 = 0) (r₁ r₂ : Rep R)
+    (hrows : r₁.rows = r₂.rows) (hcols : r₁.cols = r₂.cols)
+    (hent : ∀ i j, i < r₁.rows → j < r₁.cols → r₁.toFull.e i j = r₂.toFull.e i j)
+    (k : KName) (h1 : offers k r₁ = true) (h2 : offers k r₂ = true) (alpha : R) (x : Nat → R) (y : Vec R) (i : Nat) :
+    (repKernel conj k r₁ alpha x y).get i = (repKernel conj k r₂ alpha x y).get i := by
+  rw [rep_interchangeable conj h0 r₁ k h1, rep_interchangeable conj h0 r₂ k h2]
+  have e1 : ∀ i, i < r₁.toFull.rows → ∑ j ∈ range r₁.toFull.cols, r₁.toFull.e i j * x j
+      = ∑ j ∈ range r₂.toFull.cols, r₂.toFull.e i j * x j := by
+    intro i hi
+    rw [toFull_cols, toFull_cols, ← hcols]
+    apply Finset.sum_congr rfl
+    intro j hj
+    rw [hent i j (by rwa [toFull_rows] at hi) (by simpa using hj)]
+  have e2 : ∀ (f : R → R) i, i < r₁.toFull.cols → ∑ l ∈ range r₁.toFull.rows, f (r₁.toFull.e l i) * x l
+      = ∑ l ∈ range r₂.toFull.rows, f (r₂.toFull.e l i) * x l := by
+    intro f i hi
+    rw [toFull_rows, toFull_rows, ← hrows]
+    apply Finset.sum_congr rfl
+    intro l hl
+    rw [hent l i (by simpa using hl) (by rwa [toFull_cols] at hi)]
+  have hr : r₁.toFull.rows = r₂.toFull.rows := by rw [toFull_rows, toFull_rows, hrows]
+  have hc : r₁.toFull.cols = r₂.toFull.cols := by rw [toFull_cols, toFull_cols, hcols]
+  have e2' := e2 (fun z => z)
+  cases k <;> simp only [kernelSpec]
+  · by_cases hi : i < r₁.toFull.rows
+    · rw [if_pos hi, if_pos (hr ▸ hi), e1 i hi]
+    · rw [if_neg hi, if_neg (hr ▸ hi)]
+  · by_cases hi : i < r₁.toFull.cols
+    · rw [if_pos hi, if_pos (hc ▸ hi), e2' i hi]
+    · rw [if_neg hi, if_neg (hc ▸ hi)]
+  · by_cases hi : i < r₁.toFull.rows
+    · rw [if_pos hi, if_pos (hr ▸ hi), e1 i hi]
+    · rw [if_neg hi, if_neg (hr ▸ hi)]
+  · by_cases hi : i < r₁.toFull.cols
+    · rw [if_pos hi, if_pos (hc ▸ hi), e2' i hi]
+    · rw [if_neg hi, if_neg (hc ▸ hi)]
+  · by_cases hi : i < r₁.toFull.cols
+    · rw [if_pos hi, if_pos (hc ▸ hi), e2 conj i hi]
+    · rw [if_neg hi, if_neg (hc ▸ hi)]
+  · by_cases hi : i < r₁.toFull.rows
+    · rw [if_pos hi, if_pos (hr ▸ hi), e1 i hi]
+    · rw [if_neg hi, if_neg (hr ▸ hi)]
+  · by_cases hi : i < r₁.toFull.cols
+    · rw [if_pos hi, if_pos (hc ▸ hi), e2' i hi]
+    · rw [if_neg hi, if_neg (hc ▸ hi)]
+  · by_cases hi : i < r₁.toFull.cols
+    · rw [if_pos hi, if_pos (hc ▸ hi), e2 conj i hi]
+    · rw [if_neg hi, if_neg (hc ▸ hi)]
+  · by_cases hi : i < r₁.toFull.rows
+    · rw [if_pos hi, if_pos (hr ▸ hi), e1 i hi]
+    · rw [if_neg hi, if_neg (hr ▸ hi)]
+  · by_cases hi : i < r₁.toFull.cols
+    · rw [if_pos hi, if_pos (hc ▸ hi), e2' i hi]
+    · rw [if_neg hi, if_neg (hc ▸ hi)]
+  · by_cases hi : i < r₁.toFull.cols
+    · rw [if_pos hi, if_pos (hc ▸ hi), e2 conj i hi]
+    · rw [if_neg hi, if_neg (hc ▸ hi)]
 
-/-- `operator*(FieldMatrix, FieldMatrix)`: (A B)ᵢⱼ = Σₖ Aᵢₖ Bₖⱼ -/
+-- non-vacuity: the diagonal matrix diag(2,3) and the full matrix [[2,0],[0,3]] satisfy all hypotheses (conj = id on Int),
+-- and so do a view of a view of a matrix and the matrix itself
+example : ∀ (k : KName) (alpha : Int) (x : Nat → Int) (y : Vec Int) (i : Nat),
+    (repKernel id k (.diag 2 (fun i => (i : Int) + 2)) alpha x y).get i
+      = (repKernel id k (.full ⟨2, 2, fun i j => if i = j then (i : Int) + 2 else 0⟩) alpha x y).get i :=
+  fun k alpha x y i => rep_pair_interchangeable id rfl (.diag 2 (fun i => (i : Int) + 2))
+    (.full ⟨2, 2, fun i j => if i = j then (i : Int) + 2 else 0⟩) rfl rfl (fun _ _ _ _ => rfl) k rfl rfl alpha x y i
+example (A : Mat Int) : ∀ (alpha : Int) (x : Nat → Int) (y : Vec Int) (i : Nat),
+    (repKernel id .mv (.transposed (.transposed (.full A))) alpha x y).get i = (repKernel id .mv (.full A) alpha x y).get i :=
+  fun alpha x y i => rep_pair_interchangeable id rfl (.transposed (.transposed (.full A))) (.full A) rfl rfl
+    (fun _ _ _ _ => rfl) .mv rfl rfl alpha x y i
+
+/-! ## matrix-matrix products
+
+The three-deep loop nests are run by `prodSem` on the tables `Gen.psig_*` that the translator reads from fmatrix.hh /
+densematrix.hh; entries outside the written range keep the value of the matrix the nest writes into. -/
+
+/-- `operator*(FieldMatrix, FieldMatrix)`: (A B)ᵢⱼ = Σₖ Aᵢₖ Bₖⱼ, shape rows(A) x cols(B) -/
 theorem matmul_spec (A B : Mat R) (i j : Nat) :
-    (matmul A B).e i j = ∑ k ∈ range A.cols, A.e i k * B.e k j
-    ∧ (matmul A B).rows = A.rows ∧ (matmul A B).cols = B.cols :=
-  ⟨sumLoop_eq _ _, rfl, rfl⟩
+    (matmul A B).e i j = (if i < A.rows ∧ j < B.cols then ∑ k ∈ range A.cols, A.e i k * B.e k j else 0)
+    ∧ (matmul A B).rows = A.rows ∧ (matmul A B).cols = B.cols := by
+  have h := nest_ij A.rows B.cols A.cols (fun i j k => A.e i k * B.e k j) true (zeroMat A.rows B.cols) i j
+  have hs := nest_shape A.rows B.cols A.cols (fun i j k => A.e i k * B.e k j) true (zeroMat A.rows B.cols)
+  refine ⟨?_, ?_, ?_⟩
+  · simpa [matmul, prodSem, Gen.psig_fmMul, pext, pidx, pfac, zeroMat] using h
+  · simpa [matmul, prodSem, Gen.psig_fmMul, pext, pidx, pfac, zeroMat] using hs.1
+  · simpa [matmul, prodSem, Gen.psig_fmMul, pext, pidx, pfac, zeroMat] using hs.2
 
 /-- the FieldMatrix<K,1,1> specialisation of `operator*` agrees with the general one -/
-theorem matmul11_spec (A B : Mat R) (hc : A.cols = 1) (j : Nat) :
-    (matmul11 A B).e 0 j = (matmul A B).e 0 j := by
-  simp [matmul11, (matmul_spec A B 0 j).1, hc]
+theorem matmul11_spec (A B : Mat R) (hr : A.rows = 1) (hc : A.cols = 1) (i j : Nat) (hi : i < 1) (hj : j < B.cols) :
+    (matmul11 A B).e i j = (matmul A B).e i j
+    ∧ (matmul11 A B).rows = (matmul A B).rows ∧ (matmul11 A B).cols = (matmul A B).cols := by
+  have hi0 : i = 0 := by omega
+  subst hi0
+  refine ⟨?_, ?_, ?_⟩
+  · rw [(matmul_spec A B 0 j).1]; simp [matmul11, hr, hc, hj]
+  · rw [(matmul_spec A B 0 j).2.1, hr]; rfl
+  · rw [(matmul_spec A B 0 j).2.2]; rfl
 
-/-- `FieldMatrix * OtherMatrix` (diagonal, scalar view, transposed view …) built from `mtv`, as read from fmatrix.hh -/
+/-- `FieldMatrix * OtherMatrix` (diagonal, scalar view, transposed view, view of a view …) built from `mtv`, as read from
+fmatrix.hh -/
 theorem mulFmOther_spec (h0 : conj 0 = 0) (A : Mat R) (B : Rep R) (hk : offers Gen.fmMulOther B = true)
     (hd : A.cols = B.rows) (i j : Nat) (hj : j < B.cols) :
-    (mulFmOther conj Gen.fmMulOther A B).e i j = ∑ k ∈ range A.cols, A.e i k * B.toFull.e k j := by
+    (mulFmOther conj Gen.fmMulOther A B).e i j = ∑ k ∈ range A.cols, A.e i k * B.toFull.e k j
+    ∧ (mulFmOther conj Gen.fmMulOther A B).rows = A.rows ∧ (mulFmOther conj Gen.fmMulOther A B).cols = B.cols := by
   have h := rep_interchangeable conj h0 B Gen.fmMulOther hk 0 (A.e i) (zeroVec B.cols) j
+  refine ⟨?_, rfl, rfl⟩
   simp only [mulFmOther]
   rw [h]
   simp [Gen.fmMulOther, kernelSpec, toFull_cols, toFull_rows, hj, hd, mul_comm]
@@ -225,11 +316,14 @@ theorem mulFm11Other_spec (h0 : conj 0 = 0) (A : Mat R) (B : Rep R) (hk : offers
   rw [h]
   simp [Gen.fm11MulOther, kernelSpec, toFull_cols, toFull_rows, hj, hd, mul_comm]
 
-/-- `OtherMatrix * FieldMatrix` built column by column from `mv`, as read from fmatrix.hh -/
+/-- `OtherMatrix * FieldMatrix` (also with a transposed view as left factor) built column by column from `mv`, as read from
+fmatrix.hh -/
 theorem mulOtherFm_spec (h0 : conj 0 = 0) (A : Rep R) (B : Mat R) (hk : offers Gen.otherMulFm A = true)
     (i j : Nat) (hi : i < A.rows) :
-    (mulOtherFm conj Gen.otherMulFm A B).e i j = ∑ k ∈ range A.cols, A.toFull.e i k * B.e k j := by
+    (mulOtherFm conj Gen.otherMulFm A B).e i j = ∑ k ∈ range A.cols, A.toFull.e i k * B.e k j
+    ∧ (mulOtherFm conj Gen.otherMulFm A B).rows = A.rows ∧ (mulOtherFm conj Gen.otherMulFm A B).cols = B.cols := by
   have h := rep_interchangeable conj h0 A Gen.otherMulFm hk 0 (fun l => B.e l j) (zeroVec A.rows) i
+  refine ⟨?_, rfl, rfl⟩
   simp only [mulOtherFm]
   rw [h]
   simp [Gen.otherMulFm, kernelSpec, toFull_cols, toFull_rows, hi]
@@ -242,111 +336,250 @@ theorem mulOtherFm11_spec (h0 : conj 0 = 0) (A : Rep R) (B : Mat R) (hk : offers
   rw [h]
   simp [Gen.otherMulFm11, kernelSpec, toFull_cols, toFull_rows, hi]
 
-/-- `A * transposedView(B)` (transpose.hh): (A Bᵀ)ᵢⱼ = Σₖ Aᵢₖ Bⱼₖ, for both branches of the source -/
+/-- `A * transposedView(B)` (transpose.hh): (A Bᵀ)ᵢⱼ = Σₖ Aᵢₖ Bⱼₖ, for both branches of the source; shape rows(A) x rows(B) -/
 theorem mulTransposedView_spec (h0 : conj 0 = 0) (A : Mat R) (B : Rep R) (k : KName)
     (hkk : k = Gen.twMulDynamic ∨ k = Gen.twMulStatic) (hk : offers k B = true)
     (hd : A.cols = B.cols) (i j : Nat) (hj : j < B.rows) :
-    (mulTransposedView conj k A B).e i j = ∑ l ∈ range A.cols, A.e i l * B.toFull.e j l := by
+    (mulTransposedView conj k A B).e i j = ∑ l ∈ range A.cols, A.e i l * B.toFull.e j l
+    ∧ (mulTransposedView conj k A B).rows = A.rows ∧ (mulTransposedView conj k A B).cols = B.rows := by
   have h := rep_interchangeable conj h0 B k hk 0 (A.e i) (zeroVec B.rows) j
+  refine ⟨?_, rfl, rfl⟩
   simp only [mulTransposedView]
   rw [h]
   rcases hkk with rfl | rfl <;>
     simp [Gen.twMulDynamic, Gen.twMulStatic, kernelSpec, toFull_cols, toFull_rows, hj, hd, mul_comm]
 
 /-- `DiagonalMatrix * DiagonalMatrix` is the product of the full matrices -/
-theorem mulDiag_spec (n : Nat) (d e : Nat → R) (i j : Nat) (hi : i < n) :
+theorem mulDiag_spec (n : Nat) (d e : Nat → R) (i j : Nat) (hi : i < n) (hj : j < n) :
     (Rep.toFull (.diag n (mulDiag d e))).e i j
       = (matmul (Rep.toFull (.diag n d)) (Rep.toFull (.diag n e))).e i j := by
-  rw [(matmul_spec _ _ i j).1]
+  rw [(matmul_spec _ _ i j).1,
+    if_pos (show i < (Rep.toFull (.diag n d)).rows ∧ j < (Rep.toFull (.diag n e)).cols from ⟨hi, hj⟩)]
   simp only [Rep.toFull, mulDiag]
   rw [sum_diag_row n d (fun k => if k = j then e k else 0) i hi]
   by_cases h : i = j <;> simp [h]
 
-/-- `leftmultiply(M)`: *this becomes M · *this -/
+/-- `leftmultiply(M)` (densematrix.hh): *this becomes M · *this; the copy `C` of *this is what the nest reads -/
 theorem leftmul_spec (A M : Mat R) (i j : Nat) :
-    (leftmultiply A M).e i j = ∑ k ∈ range A.rows, M.e i k * A.e k j
-    ∧ (M.cols = A.rows → (leftmultiply A M).e i j = (matmul M A).e i j) := by
-  refine ⟨sumLoop_eq _ _, fun h => ?_⟩
-  rw [(matmul_spec M A i j).1, h]; exact sumLoop_eq _ _
+    (leftmultiply A M).e i j = (if i < A.rows ∧ j < A.cols then ∑ k ∈ range A.rows, M.e i k * A.e k j else A.e i j)
+    ∧ (leftmultiply A M).rows = A.rows ∧ (leftmultiply A M).cols = A.cols
+    ∧ (M.rows = A.rows → M.cols = A.rows → i < A.rows → j < A.cols → (leftmultiply A M).e i j = (matmul M A).e i j) := by
+  have h := nest_ij A.rows A.cols A.rows (fun i j k => M.e i k * A.e k j) true A i j
+  have hs := nest_shape A.rows A.cols A.rows (fun i j k => M.e i k * A.e k j) true A
+  have e : (leftmultiply A M).e i j
+      = (if i < A.rows ∧ j < A.cols then ∑ k ∈ range A.rows, M.e i k * A.e k j else A.e i j) := by
+    simpa [leftmultiply, prodSem, Gen.psig_dmLeftmultiply, pext, pidx, pfac] using h
+  refine ⟨e, ?_, ?_, ?_⟩
+  · simpa [leftmultiply, prodSem, Gen.psig_dmLeftmultiply, pext, pidx, pfac] using hs.1
+  · simpa [leftmultiply, prodSem, Gen.psig_dmLeftmultiply, pext, pidx, pfac] using hs.2
+  · intro hr hc hi hj
+    rw [e, (matmul_spec M A i j).1, hr, hc]
+    simp [hi, hj]
 
-/-- `rightmultiply(M)`: *this becomes *this · M -/
+/-- `rightmultiply(M)`: *this becomes *this · M — the DenseMatrix version and FieldMatrix's own overload -/
 theorem rightmul_spec (A M : Mat R) (i j : Nat) :
-    (rightmultiply A M).e i j = ∑ k ∈ range A.cols, A.e i k * M.e k j
-    ∧ (rightmultiply A M).e i j = (matmul A M).e i j := by
-  refine ⟨sumLoop_eq _ _, ?_⟩
-  rw [(matmul_spec A M i j).1]; exact sumLoop_eq _ _
+    (rightmultiply A M).e i j = (if i < A.rows ∧ j < A.cols then ∑ k ∈ range A.cols, A.e i k * M.e k j else A.e i j)
+    ∧ (rightmultiply A M).rows = A.rows ∧ (rightmultiply A M).cols = A.cols
+    ∧ (rightmultiplyFM A M).e i j = (rightmultiply A M).e i j
+    ∧ (rightmultiplyFM A M).rows = A.rows ∧ (rightmultiplyFM A M).cols = A.cols
+    ∧ (M.cols = A.cols → i < A.rows → j < A.cols → (rightmultiply A M).e i j = (matmul A M).e i j) := by
+  have h := nest_ij A.rows A.cols A.cols (fun i j k => A.e i k * M.e k j) true A i j
+  have hs := nest_shape A.rows A.cols A.cols (fun i j k => A.e i k * M.e k j) true A
+  have e : (rightmultiply A M).e i j
+      = (if i < A.rows ∧ j < A.cols then ∑ k ∈ range A.cols, A.e i k * M.e k j else A.e i j) := by
+    simpa [rightmultiply, prodSem, Gen.psig_dmRightmultiply, pext, pidx, pfac] using h
+  have e' : (rightmultiplyFM A M).e i j
+      = (if i < A.rows ∧ j < A.cols then ∑ k ∈ range A.cols, A.e i k * M.e k j else A.e i j) := by
+    simpa [rightmultiplyFM, prodSem, Gen.psig_fmRightmultiply, pext, pidx, pfac] using h
+  refine ⟨e, ?_, ?_, e'.trans e.symm, ?_, ?_, ?_⟩
+  · simpa [rightmultiply, prodSem, Gen.psig_dmRightmultiply, pext, pidx, pfac] using hs.1
+  · simpa [rightmultiply, prodSem, Gen.psig_dmRightmultiply, pext, pidx, pfac] using hs.2
+  · simpa [rightmultiplyFM, prodSem, Gen.psig_fmRightmultiply, pext, pidx, pfac] using hs.1
+  · simpa [rightmultiplyFM, prodSem, Gen.psig_fmRightmultiply, pext, pidx, pfac] using hs.2
+  · intro hc hi hj
+    rw [e, (matmul_spec A M i j).1, hc]
+    simp [hi, hj]
 
-/-- `leftmultiplyany(M)` returns M · *this -/
+/-- `leftmultiplyany(M)` returns M · *this (shape rows(M) x cols(*this)) -/
 theorem leftmultiplyany_spec (A M : Mat R) (i j : Nat) :
-    (leftmultiplyany A M).e i j = ∑ k ∈ range A.rows, M.e i k * A.e k j
-    ∧ (leftmultiplyany A M).rows = M.rows ∧ (leftmultiplyany A M).cols = A.cols :=
-  ⟨sumLoop_eq _ _, rfl, rfl⟩
+    (leftmultiplyany A M).e i j = (if i < M.rows ∧ j < A.cols then ∑ k ∈ range A.rows, M.e i k * A.e k j else 0)
+    ∧ (leftmultiplyany A M).rows = M.rows ∧ (leftmultiplyany A M).cols = A.cols := by
+  have h := nest_ij M.rows A.cols A.rows (fun i j k => M.e i k * A.e k j) true (zeroMat M.rows A.cols) i j
+  have hs := nest_shape M.rows A.cols A.rows (fun i j k => M.e i k * A.e k j) true (zeroMat M.rows A.cols)
+  refine ⟨?_, ?_, ?_⟩
+  · simpa [leftmultiplyany, prodSem, Gen.psig_fmLeftmultiplyany, pext, pidx, pfac, zeroMat] using h
+  · simpa [leftmultiplyany, prodSem, Gen.psig_fmLeftmultiplyany, pext, pidx, pfac, zeroMat] using hs.1
+  · simpa [leftmultiplyany, prodSem, Gen.psig_fmLeftmultiplyany, pext, pidx, pfac, zeroMat] using hs.2
 
-/-- `rightmultiplyany(M)` returns *this · M -/
+/-- `rightmultiplyany(M)` returns *this · M (shape rows(*this) x cols(M)) -/
 theorem rightmultiplyany_spec (A M : Mat R) (i j : Nat) :
-    (rightmultiplyany A M).e i j = ∑ k ∈ range A.cols, A.e i k * M.e k j
-    ∧ (rightmultiplyany A M).rows = A.rows ∧ (rightmultiplyany A M).cols = M.cols :=
-  ⟨sumLoop_eq _ _, rfl, rfl⟩
+    (rightmultiplyany A M).e i j = (if i < A.rows ∧ j < M.cols then ∑ k ∈ range A.cols, A.e i k * M.e k j else 0)
+    ∧ (rightmultiplyany A M).rows = A.rows ∧ (rightmultiplyany A M).cols = M.cols := by
+  have h := nest_ij A.rows M.cols A.cols (fun i j k => A.e i k * M.e k j) true (zeroMat A.rows M.cols) i j
+  have hs := nest_shape A.rows M.cols A.cols (fun i j k => A.e i k * M.e k j) true (zeroMat A.rows M.cols)
+  refine ⟨?_, ?_, ?_⟩
+  · simpa [rightmultiplyany, prodSem, Gen.psig_fmRightmultiplyany, pext, pidx, pfac, zeroMat] using h
+  · simpa [rightmultiplyany, prodSem, Gen.psig_fmRightmultiplyany, pext, pidx, pfac, zeroMat] using hs.1
+  · simpa [rightmultiplyany, prodSem, Gen.psig_fmRightmultiplyany, pext, pidx, pfac, zeroMat] using hs.2
 
 /-- the FieldMatrix<K,1,1> specialisations agree with the general loops -/
 theorem mul11_specialisations (A M : Mat R) (i j : Nat) :
-    (A.cols = 1 → (rightmultiply11 A M).e 0 0 = (rightmultiply A M).e 0 0)
-    ∧ (A.rows = 1 → (leftmultiplyany11 A M).e i 0 = (leftmultiplyany A M).e i 0)
-    ∧ (A.cols = 1 → (rightmultiplyany11 A M).e 0 j = (rightmultiplyany A M).e 0 j) := by
-  refine ⟨fun h => ?_, fun h => ?_, fun h => ?_⟩
-  · simp [rightmultiply11, (rightmul_spec A M 0 0).1, h]
-  · simp [leftmultiplyany11, (leftmultiplyany_spec A M i 0).1, h]
-  · simp [rightmultiplyany11, (rightmultiplyany_spec A M 0 j).1, h, mul_comm]
+    (A.rows = 1 → A.cols = 1 → (rightmultiply11 A M).e 0 0 = (rightmultiplyFM A M).e 0 0)
+    ∧ (A.rows = 1 → A.cols = 1 → i < M.rows → (leftmultiplyany11 A M).e i 0 = (leftmultiplyany A M).e i 0)
+    ∧ (A.rows = 1 → A.cols = 1 → j < M.cols → (rightmultiplyany11 A M).e 0 j = (rightmultiplyany A M).e 0 j) := by
+  refine ⟨fun hr hc => ?_, fun hr hc hi => ?_, fun hr hc hj => ?_⟩
+  · rw [(rightmul_spec A M 0 0).2.2.2.1, (rightmul_spec A M 0 0).1]; simp [rightmultiply11, hr, hc]
+  · rw [(leftmultiplyany_spec A M i 0).1]; simp [leftmultiplyany11, hr, hc, hi]
+  · rw [(rightmultiplyany_spec A M 0 j).1]; simp [rightmultiplyany11, hr, hc, hj, mul_comm]
 
-/-- `FMatrixHelp::multTransposedMatrix` computes Aᵀ A -/
-theorem multTransposedMatrix_spec (A : Mat R) (i j : Nat) :
-    (multTransposedMatrix A).e i j = (matmul (transposed A) A).e i j := by
-  rw [(matmul_spec _ _ i j).1]; exact sumLoop_eq _ _
+/-- `FMatrixHelp::multMatrix(A, B, ret)` writes A · B into `ret`, whatever `ret` held -/
+theorem multMatrix_spec (A B ret : Mat R) (i j : Nat) :
+    (multMatrix A B ret).e i j
+      = (if i < A.rows ∧ j < B.cols then ∑ k ∈ range A.cols, A.e i k * B.e k j else ret.e i j) := by
+  have h := nest_ij A.rows B.cols A.cols (fun i j k => A.e i k * B.e k j) true ret i j
+  simpa [multMatrix, prodSem, Gen.psig_multMatrix, pext, pidx, pfac] using h
 
--- non-vacuity: [[1,2],[3,4]] * [[0,1],[1,0]] = [[2,1],[4,3]] over Int
+/-- `FMatrixHelp::multTransposedMatrix` computes Aᵀ A, whatever `ret` held -/
+theorem multTransposedMatrix_spec (A ret : Mat R) (i j : Nat) :
+    (multTransposedMatrix A ret).e i j
+      = (if i < A.cols ∧ j < A.cols then ∑ k ∈ range A.rows, A.e k i * A.e k j else ret.e i j) := by
+  have h := nest_ij A.cols A.cols A.rows (fun i j k => A.e k i * A.e k j) true ret i j
+  simpa [multTransposedMatrix, prodSem, Gen.psig_multTransposedMatrix, pext, pidx, pfac] using h
+
+/-- `DenseMatrixHelp::multAssign` / `FMatrixHelp::multAssign`, `mult`: ret = A x;
+`FMatrixHelp::multAssignTransposed`, `multTransposed`: ret = Aᵀ x — whatever `ret` held -/
+theorem multAssign_spec (A : Mat R) (x : Nat → R) (ret : Vec R) (i : Nat) :
+    (multAssign A x ret).get i = (if i < A.rows then ∑ j ∈ range A.cols, A.e i j * x j else ret.get i)
+    ∧ (multAssignT A x ret).get i = (if i < A.cols then ∑ j ∈ range A.rows, A.e j i * x j else ret.get i) := by
+  constructor
+  · have h := outer_fixed A.rows A.cols (fun o n => A.e o n * x n) true ret i
+    simpa [multAssign, kernelSem, Gen.sig_multAssign, bound, sel, applyUpd, rhs] using h
+  · have h := outer_fixed A.cols A.rows (fun o n => A.e n o * x n) true ret i
+    simpa [multAssignT, kernelSem, Gen.sig_multAssignTransposed, bound, sel, applyUpd, rhs] using h
+
+-- non-vacuity: [[1,2],[3,4]] * [[0,1],[1,0]] = [[2,1],[4,3]] over Int; leftmultiply / rightmultiply on a non-square matrix
 example : (List.range 2).map (fun i => (List.range 2).map ((matmul (⟨2, 2, fun i j => 2*i+j+1⟩ : Mat Int)
     ⟨2, 2, fun i j => if i = j then 0 else 1⟩).e i)) = [[2, 1], [4, 3]] := by decide
+example : (List.range 2).map (fun i => (List.range 3).map ((leftmultiply (⟨2, 3, fun i j => 3*i+j+1⟩ : Mat Int)
+    ⟨2, 2, fun i j => if i = j then 0 else 1⟩).e i)) = [[4, 5, 6], [1, 2, 3]] := by decide
+example : (List.range 2).map (fun i => (List.range 3).map ((rightmultiply (⟨2, 3, fun i j => 3*i+j+1⟩ : Mat Int)
+    ⟨3, 3, fun i j => if i + j = 2 then 1 else 0⟩).e i)) = [[3, 2, 1], [6, 5, 4]] := by decide
 
 /-! ## transposition -/
 
-omit [CommRing R] in
+/-- `FieldMatrix::transposed` / `DynamicMatrix::transposed` (the nests `AT[j][i] = (*this)[i][j]` read from the source):
+entry (i,j) of the result is entry (j,i), the shape is swapped -/
 theorem transposed_spec (A : Mat R) (i j : Nat) :
-    (transposed A).e i j = A.e j i ∧ (transposed A).rows = A.cols ∧ (transposed A).cols = A.rows :=
-  ⟨rfl, rfl, rfl⟩
+    (transposed A).e i j = (if i < A.cols ∧ j < A.rows then A.e j i else 0)
+    ∧ (transposed A).rows = A.cols ∧ (transposed A).cols = A.rows
+    ∧ (transposedDyn A).e i j = (transposed A).e i j
+    ∧ (transposedDyn A).rows = A.cols ∧ (transposedDyn A).cols = A.rows := by
+  have h := trans_nest A.rows A.cols (fun o n => A.e o n) (zeroMat A.cols A.rows) i j
+  have hs := trans_shape A.rows A.cols (fun o n => A.e o n) (zeroMat A.cols A.rows)
+  have e : (transposed A).e i j = (if i < A.cols ∧ j < A.rows then A.e j i else 0) := by
+    simpa [transposed, transSem, Gen.tsig_fm, bound, sel, zeroMat] using h
+  have e' : (transposedDyn A).e i j = (if i < A.cols ∧ j < A.rows then A.e j i else 0) := by
+    simpa [transposedDyn, transSem, Gen.tsig_dyn, bound, sel, zeroMat] using h
+  refine ⟨e, ?_, ?_, e'.trans e.symm, ?_, ?_⟩
+  · simpa [transposed, transSem, Gen.tsig_fm, bound, sel, zeroMat] using hs.1
+  · simpa [transposed, transSem, Gen.tsig_fm, bound, sel, zeroMat] using hs.2
+  · simpa [transposedDyn, transSem, Gen.tsig_dyn, bound, sel, zeroMat] using hs.1
+  · simpa [transposedDyn, transSem, Gen.tsig_dyn, bound, sel, zeroMat] using hs.2
 
-omit [CommRing R] in
-theorem transposed_involutive (A : Mat R) : transposed (transposed A) = A := rfl
+/-- transposing twice gives the matrix back -/
+theorem transposed_involutive (A : Mat R) (i j : Nat) (hi : i < A.rows) (hj : j < A.cols) :
+    (transposed (transposed A)).e i j = A.e i j
+    ∧ (transposed (transposed A)).rows = A.rows ∧ (transposed (transposed A)).cols = A.cols := by
+  have h1 := transposed_spec (transposed A) i j
+  have h2 := transposed_spec A j i
+  refine ⟨?_, ?_, ?_⟩
+  · rw [h1.1, h2.2.1, h2.2.2.1, if_pos ⟨hi, hj⟩, h2.1, if_pos ⟨hj, hi⟩]
+  · rw [h1.2.1, h2.2.2.1]
+  · rw [h1.2.2.1, h2.2.1]
 
 /-- `transposed()`, `transpose()` and `asDense()` of any representation are the transpose of its full matrix; diagonal
 and 1x1 matrices (which return themselves) are their own transpose; the dense copy of a transposed view transposed
-back is the wrapped matrix -/
+back is the wrapped matrix; the view of a view has the entries of the matrix itself -/
 theorem rep_transposed_spec (r : Rep R) (n : Nat) (d : Nat → R) (a : R) (i j : Nat) :
     r.transposedFull.e i j = r.toFull.e j i
     ∧ (Rep.transposedFull (.diag n d)).e i j = (Rep.toFull (.diag n d)).e i j
     ∧ (Rep.transposedFull (.scalar a)).e i j = (Rep.toFull (.scalar a)).e i j
-    ∧ transposeMat (Rep.toFull (.transposed r)) = r.toFull := by
-  refine ⟨rfl, ?_, rfl, rfl⟩
+    ∧ transposeMat (Rep.toFull (.transposed r)) = r.toFull
+    ∧ Rep.toFull (.transposed (.transposed r)) = r.toFull := by
+  refine ⟨rfl, ?_, rfl, rfl, rfl⟩
   simp only [Rep.transposedFull, transposeMat, Rep.toFull]
   by_cases h : i = j
   · subst h; simp
   · have h' : ¬ j = i := fun e => h e.symm
     simp [h, h']
 
-/-! ## vector-space operations -/
+/-- conversion: `FieldMatrix / DynamicMatrix = representation` (construction or assignment) gives the full matrix with the
+same entries; for a diagonal matrix this is the loop `dense = 0; dense[i][i] = diagonal[i]` -/
+theorem assign_spec (r : Rep R) (i j : Nat) (hi : i < r.rows) :
+    (assignFrom r).e i j = r.toFull.e i j
+    ∧ (assignFrom r).rows = r.rows ∧ (assignFrom r).cols = r.cols := by
+  cases r with
+  | diag n d =>
+    have hi' : i < n := hi
+    have hs := loop_mupd_shape n (fun i _ => i) (fun i _ => i) (fun i _ => d i) (zeroMat n n)
+    refine ⟨?_, hs.1, hs.2⟩
+    simp only [assignFrom]
+    rw [diag_assign_loop]
+    by_cases h : i = j
+    · subst h; simp [Rep.toFull, hi']
+    · simp [Rep.toFull, h, zeroMat]
+  | full m => exact ⟨rfl, rfl, rfl⟩
+  | scalar a => exact ⟨rfl, rfl, rfl⟩
+  | transposed r => exact ⟨rfl, toFull_rows _, toFull_cols _⟩
 
-/-- vectors: `+=`/`+`, `-=`/`-`, unary `-`, `+= k`, `-= k`, `*= k` / `v*k` / `k*v`, `axpy` -/
-theorem vec_ops_spec (x y : Nat → R) (k a : R) (i : Nat) :
-    vadd x y i = x i + y i ∧ vsub x y i = x i - y i ∧ vneg x i = - x i
-    ∧ vaddScalar x k i = x i + k ∧ vsubScalar x k i = x i - k
-    ∧ vscale x k i = k * x i ∧ vscaleL k x i = k * x i
-    ∧ vaxpy y a x i = y i + a * x i :=
-  ⟨rfl, rfl, rfl, rfl, rfl, mul_comm _ _, rfl, rfl⟩
+-- non-vacuity: the transposed of the 2x3 matrix [[1,2,3],[4,5,6]]
+example : (List.range 3).map (fun i => (List.range 2).map ((transposed (⟨2, 3, fun i j => 3*i+j+1⟩ : Mat Int)).e i))
+    = [[1, 4], [2, 5], [3, 6]] := by decide
 
-/-- division by a scalar, over a field: `(x / k)ᵢ = xᵢ / k`, and it undoes the multiplication by `k ≠ 0` -/
-theorem vec_div_spec {F : Type*} [Field F] (x : Nat → F) (k : F) (i : Nat) :
-    vdiv x k i = x i / k ∧ (k ≠ 0 → vdiv (vscale x k) k i = x i) := by
-  refine ⟨rfl, fun hk => ?_⟩
-  simp [vdiv, vscale, hk]
+/-! ## vector-space operations
+
+The elementwise loops are run by `elemSem` on the tables `Gen.vsig_*` read from densevector.hh; every statement gives the
+value of entry `i` after the loop, and `i ≥ size` is the frame. -/
+
+/-- vectors: `+=`, `-=`, `+= k`, `-= k`, `*= k`, `axpy`, unary `-`, binary `+` / `-` (copy, then compound assignment) -/
+theorem vec_ops_spec [Div R] (t : Vec R) (x : Nat → R) (k a : R) (i : Nat) :
+    (vPlusAssign t x).get i = (if i < t.n then t.get i + x i else t.get i)
+    ∧ (vMinusAssign t x).get i = (if i < t.n then t.get i - x i else t.get i)
+    ∧ (vPlusAssignScalar t k).get i = (if i < t.n then t.get i + k else t.get i)
+    ∧ (vMinusAssignScalar t k).get i = (if i < t.n then t.get i - k else t.get i)
+    ∧ (vTimesAssign t k).get i = (if i < t.n then k * t.get i else t.get i)
+    ∧ (vAxpy t a x).get i = (if i < t.n then t.get i + a * x i else t.get i)
+    ∧ (vNeg t).get i = (if i < t.n then - t.get i else t.get i)
+    ∧ (vPlus t x).get i = (if i < t.n then t.get i + x i else t.get i)
+    ∧ (vMinus t x).get i = (if i < t.n then t.get i - x i else t.get i) := by
+  refine ⟨?_, ?_, ?_, ?_, ?_, ?_, ?_, ?_, ?_⟩ <;>
+    simp [vPlusAssign, vMinusAssign, vPlusAssignScalar, vMinusAssignScalar, vTimesAssign, vAxpy, vNeg, vPlus, vMinus, applyVia,
+      Gen.vplusVia, Gen.vminusVia, elemSem_get, Gen.vsig_plusAssign, Gen.vsig_minusAssign, Gen.vsig_plusAssignScalar,
+      Gen.vsig_minusAssignScalar, Gen.vsig_timesAssign, Gen.vsig_axpy, Gen.vsig_neg, applyE, erhs, mul_comm]
+
+/-- the size of the vector is preserved -/
+theorem vec_ops_size [Div R] (t : Vec R) (x : Nat → R) (k a : R) :
+    (vPlusAssign t x).n = t.n ∧ (vMinusAssign t x).n = t.n ∧ (vPlusAssignScalar t k).n = t.n
+    ∧ (vMinusAssignScalar t k).n = t.n ∧ (vTimesAssign t k).n = t.n ∧ (vAxpy t a x).n = t.n ∧ (vNeg t).n = t.n
+    ∧ (vPlus t x).n = t.n ∧ (vMinus t x).n = t.n := by
+  refine ⟨?_, ?_, ?_, ?_, ?_, ?_, ?_, ?_, ?_⟩ <;>
+    simp [vPlusAssign, vMinusAssign, vPlusAssignScalar, vMinusAssignScalar, vTimesAssign, vAxpy, vNeg, vPlus, vMinus, applyVia,
+      Gen.vplusVia, Gen.vminusVia, elemSem_n]
+
+/-- FieldVector `v*k`, `k*v` -/
+theorem vec_scale_spec (x : Nat → R) (k : R) (i : Nat) :
+    vscale x k i = k * x i ∧ vscaleL k x i = k * x i := ⟨mul_comm _ _, rfl⟩
+
+/-- division by a scalar, over a field: `(x /= k)ᵢ = xᵢ / k`, and it undoes the multiplication by `k ≠ 0` -/
+theorem vec_div_spec {F : Type*} [Field F] (t : Vec F) (x : Nat → F) (k : F) (i : Nat) :
+    (vDivAssign t k).get i = (if i < t.n then t.get i / k else t.get i)
+    ∧ vdiv x k i = x i / k
+    ∧ (k ≠ 0 → (vDivAssign (vTimesAssign t k) k).get i = t.get i) := by
+  have h1 : ∀ (t : Vec F), (vDivAssign t k).get i = (if i < t.n then t.get i / k else t.get i) := by
+    intro t; simp [vDivAssign, elemSem_get, Gen.vsig_divAssign, applyE, erhs]
+  refine ⟨h1 t, rfl, fun hk => ?_⟩
+  rw [h1, (vec_ops_size t x k k).2.2.2.2.1, (vec_ops_spec t x k k i).2.2.2.2.1]
+  by_cases hi : i < t.n <;> simp [hi, hk]
 
 omit [CommRing R] in
 /-- `operator==` of vectors / matrices decides entrywise equality (`!=` is its negation in the code) -/
@@ -358,36 +591,102 @@ theorem eq_ops_spec [DecidableEq R] (n : Nat) (x y : Nat → R) (A B : Mat R) :
   refine ⟨hv n x y, ?_⟩
   simp only [meq, allN_iff, hv]
 
-/-- matrices: `+=`/`+`, `-=`/`-`, `*= k` / `A*k` / `k*A`, `axpy`, unary `-` -/
-theorem mat_ops_spec (A B : Mat R) (k a : R) (i j : Nat) :
-    (madd A B).e i j = A.e i j + B.e i j ∧ (msub A B).e i j = A.e i j - B.e i j
-    ∧ (mscale A k).e i j = k * A.e i j ∧ (mscaleL k A).e i j = k * A.e i j
-    ∧ (maxpy A a B).e i j = A.e i j + a * B.e i j ∧ (mneg A).e i j = - A.e i j :=
-  ⟨rfl, rfl, mul_comm _ _, rfl, rfl, rfl⟩
+/-- matrices (densematrix.hh, row by row through the vector loops): `+=`, `-=`, `*= k`, `axpy`, unary `-`;
+FieldMatrix `A+B`, `A-B`, `A*k`, `k*A` -/
+theorem mat_ops_spec [Div R] (A B : Mat R) (k a : R) (i j : Nat) :
+    (madd A B).e i j = (if j < A.cols then A.e i j + B.e i j else A.e i j)
+    ∧ (msub A B).e i j = (if j < A.cols then A.e i j - B.e i j else A.e i j)
+    ∧ (mscale A k).e i j = (if j < A.cols then k * A.e i j else A.e i j)
+    ∧ (maxpy A a B).e i j = (if j < A.cols then A.e i j + a * B.e i j else A.e i j)
+    ∧ (mneg A).e i j = - A.e i j
+    ∧ (mplus A B).e i j = A.e i j + B.e i j ∧ (mminus A B).e i j = A.e i j - B.e i j
+    ∧ (mtimes A k).e i j = k * A.e i j ∧ (mltimes k A).e i j = k * A.e i j := by
+  refine ⟨?_, ?_, ?_, ?_, rfl, rfl, rfl, mul_comm _ _, rfl⟩
+  · exact (vec_ops_spec (A.row i) (B.e i) k a j).1
+  · exact (vec_ops_spec (A.row i) (B.e i) k a j).2.1
+  · exact (vec_ops_spec (A.row i) (B.e i) k a j).2.2.2.2.1
+  · exact (vec_ops_spec (A.row i) (B.e i) k a j).2.2.2.2.2.1
 
 theorem mat_div_spec {F : Type*} [Field F] (A : Mat F) (k : F) (i j : Nat) :
-    (mdiv A k).e i j = A.e i j / k := rfl
+    (mdiv A k).e i j = (if j < A.cols then A.e i j / k else A.e i j) ∧ (mover A k).e i j = A.e i j / k :=
+  ⟨(vec_div_spec (A.row i) (A.e i) k j).1, rfl⟩
 
-/-- `dot` conjugates its FIRST argument: a·b = Σ conj(aᵢ) bᵢ -/
+/-- DiagonalMatrix does its vector-space operations on the diagonal vector; the result is the diagonal matrix whose full
+matrix is what the full matrices give: the diagonal and the full representation are interchangeable for `+=`, `-=`, `*=`
+(and `==`) too -/
+theorem diag_vs_ops_interchangeable [Div R] [DecidableEq R] (n : Nat) (d e : Nat → R) (k : R) (i j : Nat) (hj : j < n) :
+    (Rep.toFull (.diag n (vPlusAssign ⟨n, d⟩ e).get)).e i j = (madd (Rep.toFull (.diag n d)) (Rep.toFull (.diag n e))).e i j
+    ∧ (Rep.toFull (.diag n (vMinusAssign ⟨n, d⟩ e).get)).e i j = (msub (Rep.toFull (.diag n d)) (Rep.toFull (.diag n e))).e i j
+    ∧ (Rep.toFull (.diag n (vTimesAssign ⟨n, d⟩ k).get)).e i j = (mscale (Rep.toFull (.diag n d)) k).e i j
+    ∧ (veq n d e = meq (Rep.toFull (.diag n d)) (Rep.toFull (.diag n e))) := by
+  have hm := mat_ops_spec (Rep.toFull (.diag n d)) (Rep.toFull (.diag n e)) k k i j
+  have hv := vec_ops_spec ⟨n, d⟩ e k k i
+  refine ⟨?_, ?_, ?_, ?_⟩
+  · rw [hm.1]
+    simp only [Rep.toFull, hv.1]
+    by_cases h : i = j <;> simp [h, hj]
+  · rw [hm.2.1]
+    simp only [Rep.toFull, hv.2.1]
+    by_cases h : i = j <;> simp [h, hj]
+  · rw [hm.2.2.1]
+    simp only [Rep.toFull, hv.2.2.2.2.1]
+    by_cases h : i = j <;> simp [h, hj]
+  · have he := eq_ops_spec n d e (Rep.toFull (.diag n d)) (Rep.toFull (.diag n e))
+    rw [Bool.eq_iff_iff, he.1, he.2]
+    simp only [Rep.toFull]
+    constructor
+    · intro h a ha b _
+      by_cases hab : a = b
+      · subst hab; simp [h a ha]
+      · simp [hab]
+    · intro h a ha
+      simpa using h a ha a ha
+
+theorem diag_div_interchangeable {F : Type*} [Field F] (n : Nat) (d : Nat → F) (k : F) (i j : Nat) (hj : j < n) :
+    (Rep.toFull (.diag n (vDivAssign ⟨n, d⟩ k).get)).e i j = (mdiv (Rep.toFull (.diag n d)) k).e i j := by
+  rw [(mat_div_spec (Rep.toFull (.diag n d)) k i j).1]
+  simp only [Rep.toFull, (vec_div_spec ⟨n, d⟩ d k i).1]
+  by_cases h : i = j <;> simp [h, hj]
+
+/-- `dot` over a complex-like field conjugates its FIRST argument: a·b = Σ conj(aᵢ) bᵢ (the argument order `(*this)[i], x[i]` is
+read from densevector.hh, the conjugated argument from dotproduct.hh); over a real field type the overload without
+conjugation is compiled -/
 theorem dot_conj_first (n : Nat) (a b : Nat → R) :
-    vdot conj n a b = ∑ i ∈ range n, conj (a i) * b i := sumLoop_eq _ _
+    vdot true conj n a b = ∑ i ∈ range n, conj (a i) * b i
+    ∧ vdot false conj n a b = ∑ i ∈ range n, a i * b i := by
+  constructor <;> (unfold vdot; rw [sumLoop_eq]) <;>
+    simp [Gen.vdotOrder, Gen.scalarDotComplex, Gen.scalarDotReal, ordered, scalarDot]
 
 /-- `operator*` (dotT) does not conjugate -/
-theorem dotT_spec (n : Nat) (a b : Nat → R) : vdotT n a b = ∑ i ∈ range n, a i * b i := sumLoop_eq _ _
+theorem dotT_spec (n : Nat) (a b : Nat → R) : vdotT n a b = ∑ i ∈ range n, a i * b i := by
+  unfold vdotT; rw [sumLoop_eq]; simp [Gen.vdotTOrder, ordered]
 
-/-- with a ring involution the dot product is conjugate-symmetric, and it is `operator*` when conj is the identity -/
+/-- with a ring involution the dot product is conjugate-symmetric -/
 theorem dot_conj_symm [StarRing R] (n : Nat) (a b : Nat → R) :
-    vdot star n b a = star (vdot star n a b) := by
-  rw [dot_conj_first, dot_conj_first, star_sum]
+    vdot true star n b a = star (vdot true star n a b) := by
+  rw [(dot_conj_first star n b a).1, (dot_conj_first star n a b).1, star_sum]
   apply Finset.sum_congr rfl
   intro i _
   rw [star_mul', star_star, mul_comm]
 
-theorem dot_real (hid : ∀ z : R, conj z = z) (n : Nat) (a b : Nat → R) : vdot conj n a b = vdotT n a b := by
-  rw [dot_conj_first, dotT_spec]; simp [hid]
+/-- the dot product is `operator*` when conj is the identity, and always for real field types -/
+theorem dot_real (hid : ∀ z : R, conj z = z) (n : Nat) (a b : Nat → R) :
+    vdot true conj n a b = vdotT n a b ∧ vdot false conj n a b = vdotT n a b := by
+  rw [(dot_conj_first conj n a b).1, (dot_conj_first conj n a b).2, dotT_spec]; simp [hid]
 
--- non-vacuity: conj = negation on Int makes the two products differ
-example : vdot (fun z : Int => -z) 2 (fun i => i + 1) (fun _ => 1) = -3 ∧ vdotT 2 (fun i => (i : Int) + 1) (fun _ => 1) = 3 := by
+/-- the order relations of FieldVector<K,1> against scalars (`a[0] < b`, `a[0] <= b`, ...) decide the relation of a linear
+order -/
+theorem ord_ops_spec {L : Type*} [LinearOrder L] (a b : L) :
+    (ordRel (fun x y => decide (x < y)) .lt a b = true ↔ a < b)
+    ∧ (ordRel (fun x y => decide (x < y)) .le a b = true ↔ a ≤ b)
+    ∧ (ordRel (fun x y => decide (x < y)) .gt a b = true ↔ b < a)
+    ∧ (ordRel (fun x y => decide (x < y)) .ge a b = true ↔ b ≤ a) := by
+  simp [ordRel]
+
+-- non-vacuity: conj = negation on Int makes the two products differ; the loops really run
+example : vdot true (fun z : Int => -z) 2 (fun i => i + 1) (fun _ => 1) = -3 ∧ vdotT 2 (fun i => (i : Int) + 1) (fun _ => 1) = 3 := by
   decide
+example : (List.range 3).map (vAxpy (⟨3, fun i => (i : Int)⟩) 2 (fun _ => 5)).get = [10, 11, 12] := by decide
+example : (List.range 3).map (vNeg (⟨2, fun i => (i : Int) + 1⟩)).get = [-1, -2, 3] := by decide
 
 end DV.C01
